@@ -47,6 +47,15 @@ Lemma fold_left_ext_eq {A B} (f g : A -> B -> A) : (forall a b, f a b = g a b) -
   forall l a0, fold_left f l a0 = fold_left g l a0.
 Proof. intros H l. induction l as [|b l IH]; intros a0; cbn; auto. rewrite H. apply IH. Qed.
 
+Lemma NoDup_app_inv {A} (a b : list A) : NoDup (a ++ b) -> NoDup a /\ NoDup b /\ forall x, In x a -> ~ In x b.
+Proof.
+  induction a as [|x a IH]; cbn; intro H.
+  - split; [constructor|]. split; auto.
+  - inversion H; subst. destruct (IH H3) as (H4 & H5 & H6). split; [|split; auto].
+    + constructor; auto. intro Hin. apply H2. apply in_or_app. auto.
+    + intros y [<-|Hy]; auto. intro Hb. apply H2. apply in_or_app. auto.
+Qed.
+
 Lemma remove_nat_remove i l : remove_nat i l = remove Nat.eq_dec i l.
 Proof.
   unfold remove_nat. induction l as [|a l IH]; cbn [filter remove]; auto.
@@ -603,22 +612,123 @@ Proof.
   - now rewrite fold_left_app.
 Qed.
 
+(* consecutive elements of a node path are joined by sole mutual links between distinct nodes *)
+Lemma Linked_cons2 g a b r :
+  Linked D join K stranded g (a :: b :: r) <-> step_ok D join K stranded g a b = true /\ Linked D join K stranded g (b :: r).
+Proof. unfold Linked. cbn [tl combine]. rewrite Forall_cons_iff. cbn [fst snd]. tauto. Qed.
+Lemma Linked_one g a : Linked D join K stranded g [a].
+Proof. unfold Linked. cbn. constructor. Qed.
+Lemma Linked_snoc g q a b :
+  Linked D join K stranded g (q ++ [a]) -> step_ok D join K stranded g a b = true ->
+  Linked D join K stranded g ((q ++ [a]) ++ [b]).
+Proof.
+  induction q as [|x q IH]; intros H1 H2.
+  - cbn [app]. apply Linked_cons2. split; [exact H2 | apply Linked_one].
+  - destruct q as [|y q]; cbn [app] in *.
+    + apply Linked_cons2 in H1. destruct H1 as [H1 _]. apply Linked_cons2. split; [exact H1|].
+      apply Linked_cons2. split; [exact H2 | apply Linked_one].
+    + apply Linked_cons2 in H1. destruct H1 as [H1 H3]. apply Linked_cons2. split; [exact H1 | exact (IH H3 H2)].
+Qed.
+Lemma Linked_app g q a r :
+  Linked D join K stranded g (q ++ [a]) -> Linked D join K stranded g (a :: r) ->
+  Linked D join K stranded g (q ++ a :: r).
+Proof.
+  induction q as [|x q IH]; intros H1 H2; [exact H2|].
+  destruct q as [|y q]; cbn [app] in *.
+  - apply Linked_cons2 in H1. destruct H1 as [H1 _]. apply Linked_cons2. split; [exact H1 | exact H2].
+  - apply Linked_cons2 in H1. destruct H1 as [H1 H3]. apply Linked_cons2. split; [exact H1 | exact (IH H3 H2)].
+Qed.
+
+Lemma wstep_ok g S v s w t :
+  winv g S -> wnext g S v s = Some (w, t) -> v <> w ->
+  step_ok D join K stranded g (v, dflip (ds s)) (w, ds t) = true /\
+  step_ok D join K stranded g (w, dflip (ds t)) (v, ds s) = true.
+Proof.
+  intros W H Hne. pose proof (wnext_sym D join K stranded join_sym g S W _ _ _ _ H) as H'.
+  apply wnext_inv in H. apply wnext_inv in H'. destruct H as [_ H]. destruct H' as [_ H'].
+  unfold step_ok. cbn [fst snd]. rewrite !dflip_dflip, H, H'. cbn [opt_nd_eqb].
+  rewrite !Nat.eqb_refl. assert (E1 : Nat.eqb v w = false) by now apply Nat.eqb_neq.
+  assert (E2 : Nat.eqb w v = false) by (apply Nat.eqb_neq; congruence). rewrite E1, E2.
+  destruct (ds s), (ds t); cbn; auto.
+Qed.
+
+Lemma chain_linked_right g S : winv g S -> forall v s p,
+  chain nat (wnext g S) v s p -> NoDup (v :: verts nat p) ->
+  Linked D join K stranded g ((v, dflip (ds s)) :: cp p).
+Proof.
+  intro W. induction 1 as [v s | v s w t p Hn Hc IH]; intro Hnd.
+  - apply Linked_one.
+  - cbn [cp map fst snd]. apply Linked_cons2.
+    assert (Hne : v <> w).
+    { intro E. subst w. apply NoDup_cons_iff in Hnd. destruct Hnd as [Hni _]. apply Hni. cbn. auto. }
+    split; [apply (wstep_ok g S v s w t W Hn Hne)|].
+    assert (Hnd' : NoDup (w :: verts nat p)) by (apply NoDup_cons_iff in Hnd; apply Hnd).
+    specialize (IH Hnd'). rewrite ds_flip, dflip_dflip in IH. exact IH.
+Qed.
+
+Lemma chain_linked_left g S : winv g S -> forall v s p,
+  chain nat (wnext g S) v s p -> NoDup (v :: verts nat p) ->
+  Linked D join K stranded g (rev (map flipc (cp p)) ++ [(v, ds s)]).
+Proof.
+  intro W. induction 1 as [v s | v s w t p Hn Hc IH]; intro Hnd.
+  - apply Linked_one.
+  - cbn [cp map rev fst snd flipc].
+    assert (Hne : v <> w).
+    { intro E. subst w. apply NoDup_cons_iff in Hnd. destruct Hnd as [Hni _]. apply Hni. cbn. auto. }
+    assert (Hnd' : NoDup (w :: verts nat p)) by (apply NoDup_cons_iff in Hnd; apply Hnd).
+    specialize (IH Hnd'). rewrite ds_flip in IH. fold (cp p).
+    apply Linked_snoc; auto. apply (wstep_ok g S v s w t W Hn Hne).
+Qed.
+
+Lemma build_linked g S avail seed lp rp a3 :
+  winv g S -> NoDup avail -> In seed avail -> (forall x, In x avail -> In x S) ->
+  build nat Nat.eq_dec (wnext g S) avail seed = (lp, rp, a3) ->
+  Linked D join K stranded g (assemble lp seed rp) /\ NoDup (map fst (assemble lp seed rp)) /\
+  (forall x, In x (map fst (assemble lp seed rp)) -> In x S) /\ NoDup a3.
+Proof.
+  intros W Hnd Hseed Hsub Hb.
+  destruct (build_closed nat Nat.eq_dec (wnext g S) (wnext_sym D join K stranded join_sym g S W)
+              avail seed lp rp a3 Hnd Hseed Hb) as [(HndN & Hnd3 & Hsp & _) _].
+  rewrite assemble_verts. split; [|split; [exact HndN | split; [|exact Hnd3]]].
+  2:{ intros x Hx. apply Hsub, Hsp. auto. }
+  unfold build in Hb.
+  destruct (AbstractWalk.extend nat Nat.eq_dec (wnext g S) _ (remove Nat.eq_dec seed avail) seed L) as [lp0 a2] eqn:EL.
+  destruct (AbstractWalk.extend nat Nat.eq_dec (wnext g S) _ a2 seed R) as [rp0 a3'] eqn:ER.
+  injection Hb as <- <- <-.
+  assert (Hnd1 : NoDup (remove Nat.eq_dec seed avail)) by (apply (NoDup_remove_ nat Nat.eq_dec (wnext g S)); auto).
+  destruct (extend_spec nat Nat.eq_dec (wnext g S) _ _ _ _ _ _ (Nat.lt_succ_diag_r _) Hnd1 EL) as [HcL _ Hnd2 _ _ _].
+  destruct (extend_spec nat Nat.eq_dec (wnext g S) _ _ _ _ _ _ (Nat.lt_succ_diag_r _) Hnd2 ER) as [HcR _ _ _ _ _].
+  unfold node_verts in HndN.
+  destruct (NoDup_app_inv _ _ HndN) as (HL & HR & Hdj).
+  assert (HndL : NoDup (seed :: verts nat lp0)).
+  { constructor.
+    - intro Hin. apply (Hdj seed); [now apply -> in_rev | now left].
+    - apply NoDup_rev in HL. now rewrite rev_involutive in HL. }
+  assert (HndR : NoDup (seed :: verts nat rp0)) by exact HR.
+  unfold assemble. apply Linked_app.
+  - exact (chain_linked_left g S W seed L lp0 HcL HndL).
+  - exact (chain_linked_right g S W seed R rp0 HcR HndR).
+Qed.
+
 (* the outer loop *)
-Definition result_ok (g : graph) (r : list (gnode * list (nat * dir))) (nodes : list (list nat)) : Prop :=
+Definition result_ok (g : graph) (S : list nat) (r : list (gnode * list (nat * dir))) (nodes : list (list nat)) : Prop :=
   Forall2 (fun x N => map fst (snd x) = N /\
-             exists lp seed rp, snd x = assemble lp seed rp /\ built g (fst x) lp seed rp) r nodes.
+             exists lp seed rp, snd x = assemble lp seed rp /\ built g (fst x) lp seed rp /\
+               Linked D join K stranded g (snd x) /\ NoDup (map fst (snd x)) /\
+               (forall y, In y (map fst (snd x)) -> In y S)) r nodes.
 
 Lemma rb_loop_spec g S : winv g S -> forall ids avail,
-  (forall x, In x avail -> In x S) ->
+  NoDup avail -> (forall x, In x avail -> In x S) ->
   exists r, rb_loop D reduce join K stranded g ids avail = Some r /\
-            result_ok g r (compress nat Nat.eq_dec (wnext g S) ids avail).
+            result_ok g S r (compress nat Nat.eq_dec (wnext g S) ids avail).
 Proof.
-  intro W. induction ids as [|i ids IH]; intros avail Hsub; cbn [rb_loop compress].
+  intro W. induction ids as [|i ids IH]; intros avail Hnd Hsub; cbn [rb_loop compress].
   - exists []. split; auto. constructor.
   - rewrite <- mem_nat_mem. destruct (mem_nat i avail) eqn:Ei.
     + destruct (build nat Nat.eq_dec (wnext g S) avail i) as [[lp rp] a'] eqn:Eb.
       apply mem_nat_In in Ei.
       destruct (rb_build_spec g S avail i lp rp a' W Hsub Ei Eb) as (n & Hn & Hbuilt). rewrite Hn.
+      destruct (build_linked g S avail i lp rp a' W Hnd Ei Hsub Eb) as (HL & HN & HS & Hnd').
       assert (Hsub' : forall x, In x a' -> In x S).
       { intros x Hx. apply Hsub. unfold build in Eb.
         destruct (AbstractWalk.extend nat Nat.eq_dec (wnext g S) _ (remove Nat.eq_dec i avail) i L) as [lp0 a2] eqn:EL.
@@ -626,9 +736,9 @@ Proof.
         injection Eb as <- <- <-.
         apply (proj2 (extend_incl Nat.eq_dec _ _ _ _ _ _ _ ER)) in Hx.
         apply (proj2 (extend_incl Nat.eq_dec _ _ _ _ _ _ _ EL)) in Hx. apply in_remove in Hx. tauto. }
-      destruct (IH a' Hsub') as (r & Hr & Hok). rewrite Hr.
+      destruct (IH a' Hnd' Hsub') as (r & Hr & Hok). rewrite Hr.
       eexists. split; [reflexivity|]. constructor; auto. cbn [fst snd]. split; [apply assemble_verts|].
-      exists lp, i, rp. split; [reflexivity | exact Hbuilt].
+      exists lp, i, rp. split; [reflexivity|]. split; [exact Hbuilt|]. auto.
     + apply IH; auto.
 Qed.
 End Main.
@@ -775,20 +885,20 @@ Theorem recompress_refines_walk_ (g : graph) censor :
   exists g1 out r,
     restrict D K stranded g (survivors g censor) = Some g1 /\ winv g1 (survivors g censor) /\
     compress_graph_paths g censor = Some (out, map snd r) /\
-    result_ok D reduce K g1 r (walk_nodes g1 (survivors g censor) (length g)) /\
+    result_ok D reduce join K stranded g1 (survivors g censor) r (walk_nodes g1 (survivors g censor) (length g)) /\
     pruned_of (map fst r) None out.
 Proof.
   intro V. set (S := survivors g censor).
   destruct (fix_exts_spec D K stranded g (Some S)) as (g1 & Hg1 & Hlen & _).
   assert (HS : forall x, In x S -> (x < length g)%nat) by (intros x Hx; now apply survivors_spec in Hx).
   pose proof (restrict_winv D K stranded g g1 S V HS Hg1) as W.
-  destruct (rb_loop_spec D reduce join K stranded g1 S W (seq 0 (length g)) S (fun x H => H)) as (r & Hr & Hok).
+  destruct (rb_loop_spec D reduce join K stranded join_sym g1 S W (seq 0 (length g)) S (survivors_nodup g censor) (fun x H => H)) as (r & Hr & Hok).
   destruct (fix_exts_spec D K stranded (map fst r) None) as (out & Hout & Hp).
   exists g1, out, r. split; [exact Hg1|]. split; [exact W|]. split; [|split; [exact Hok | exact Hp]].
   unfold Recompress.compress_graph_paths. fold (survivors g censor). fold S. rewrite Hg1, Hr, Hout. reflexivity.
 Qed.
 
-Lemma result_ok_nodes g1 r nodes : result_ok D reduce K g1 r nodes -> map (map fst) (map snd r) = nodes.
+Lemma result_ok_nodes g1 S r nodes : result_ok D reduce join K stranded g1 S r nodes -> map (map fst) (map snd r) = nodes.
 Proof.
   intro H. rewrite map_map. rewrite <- (map_id nodes).
   eapply Forall2_map_eq; [exact H|]. intros a b [Hab _]. exact Hab.
@@ -803,7 +913,7 @@ Theorem recompress_partition (g : graph) censor out paths :
             (x < length g)%nat /\ match censor with Some c => ~ In x c | None => True end.
 Proof.
   intros V H. destruct (recompress_refines_walk_ g censor V) as (g1 & out' & r & Hg1 & W & Hc & Hok & Hp).
-  rewrite Hc in H. injection H as <- <-. rewrite (result_ok_nodes _ _ _ Hok).
+  rewrite Hc in H. injection H as <- <-. rewrite (result_ok_nodes _ _ _ _ Hok).
   destruct (compress_partition nat Nat.eq_dec (wnext g1 (survivors g censor))
               (wnext_sym D join K stranded join_sym g1 _ W) (seq 0 (length g)) (survivors g censor)
               (survivors_nodup g censor)) as [H1 H2].
@@ -823,7 +933,7 @@ Proof.
   rewrite Hc in H. injection H as <- <-. exists g1. split; auto.
   intros p Hp' x d w t Hx Hn.
   assert (HN : In (map fst p) (walk_nodes g1 (survivors g censor) (length g))).
-  { rewrite <- (result_ok_nodes _ _ _ Hok). now apply in_map. }
+  { rewrite <- (result_ok_nodes _ _ _ _ Hok). now apply in_map. }
   destruct (compress_partition nat Nat.eq_dec (wnext g1 (survivors g censor))
               (wnext_sym D join K stranded join_sym g1 _ W) (seq 0 (length g)) (survivors g censor)
               (survivors_nodup g censor)) as [_ H2].
@@ -869,6 +979,7 @@ Qed.
    terminal extensions of the two end nodes (oriented) *)
 Definition node_of_path (g1 : graph) (n : gnode) (p : list (nat * dir)) : Prop :=
   exists lp seed rp n0, p = assemble lp seed rp /\ built D reduce K g1 n0 lp seed rp /\
+    Linked D join K stranded g1 p /\ NoDup (map fst p) /\
     n_seq D n = n_seq D n0 /\ n_data D n = n_data D n0 /\ n_exts D n < 256 /\
     forall d b, In b bases4 -> e_has_ext (n_exts D n) (dirb d) b = true -> e_has_ext (n_exts D n0) (dirb d) b = true.
 
@@ -884,10 +995,11 @@ Proof.
     destruct (nth_error r i) as [[n0 p0]|] eqn:Er.
     2:{ rewrite nth_error_map, Er in Hpi. discriminate. }
     rewrite nth_error_map, Er in Hpi. cbn in Hpi. injection Hpi as <-.
-    destruct (Forall2_nth_elim _ _ _ _ _ Hok Er) as (N & _ & _ & lp & seed & rp & Hp0 & Hb). cbn [fst snd] in *.
+    destruct (Forall2_nth_elim _ _ _ _ _ Hok Er) as (N & _ & _ & lp & seed & rp & Hp0 & Hb & HLk & HNd & HSub). cbn [fst snd] in *.
     assert (Hn0 : nth_error (map fst r) i = Some n0) by (rewrite nth_error_map, Er; reflexivity).
     destruct (Hsp i n0 Hn0) as (e & He & Hlt & Hk). rewrite Hn in He. injection He as ->.
-    exists lp, seed, rp, n0. split; [exact Hp0|]. split; [exact Hb|]. split; [reflexivity|].
+    exists lp, seed, rp, n0. split; [exact Hp0|]. split; [exact Hb|]. split; [exact HLk|]. split; [exact HNd|].
+    split; [reflexivity|].
     split; [reflexivity|]. split; [exact Hlt|]. intros d b Hb' Hh. cbn [n_exts fst snd] in Hh.
     rewrite (Hk d b Hb') in Hh. unfold keeps, ext_link in Hh. rewrite Hn0 in Hh.
     destruct (e_has_ext (n_exts D n0) (dirb d) b); [reflexivity | discriminate].
